@@ -977,6 +977,14 @@ def replay(path):
 
 _addr = {}
 TYPE_VALUE = {"control": 0x00, "spdm": 0x05, "secured": 0x06, "pci": 0x7E, "iana": 0x7F, "invalid": 0xFF}
+# DSP0236 table 12 / DSP0239 / DSP0236 table 13: code point -> the library's variant name
+CMD_NAMES = ["Reserved", "SetEndpointID", "GetEndpointID", "GetEndpointUUID", "GetMCTPVersionSupport",
+             "GetMessageTypeSupport", "GetVendorDefinedMessageSupport", "ResolveEndpointID", "AllocateEndpointIDs",
+             "RoutingInformationUpdate", "GetRoutingTableEntries", "PrepareForEndpointDiscovery", "EndpointDiscovery",
+             "DiscoveryNotify", "GetNetworkID", "QueryHop", "ResolveUUID", "QueryRateLimit", "RequestTXRateLimit",
+             "UpdateRateLimit", "QuerySupportedInterfaces"]
+MSG_NAMES = {0x00: "MCtpControl", 0x05: "SpdmOverMctp", 0x06: "SecuredMessages", 0x7E: "VendorDefinedPCI", 0x7F: "VendorDefinedIANA"}
+CC_NAMES = ["Success", "Error", "ErrorInvalidData", "ErrorInvalidLength", "ErrorNotReady", "ErrorUnsupportedCmd"]
 CMD_CODES = set(range(0x00, 0x15))
 MSG_CODES = {0x00, 0x05, 0x06, 0x7E, 0x7F}
 
@@ -987,12 +995,14 @@ def py_verdict(prop, line, o):
         if prop == "C19" and t[0] == "conv":
             b = int(t[2], 16)
             if t[1] == "cmd":
-                return "ok" if o == ("%02x" % (b if b in CMD_CODES else 0xFF)) else "fail:command-code-table"
+                want = "%02x %s" % (b, CMD_NAMES[b]) if b in CMD_CODES else "ff Unknown"
+                return "ok" if o == want else "fail:command-code-table"
             if t[1] == "msg":
-                return "ok" if o == ("%02x" % (b if b in MSG_CODES else 0xFF)) else "fail:message-type-table"
+                want = "%02x %s" % (b, MSG_NAMES[b]) if b in MSG_CODES else "ff Invalid"
+                return "ok" if o == want else "fail:message-type-table"
             if t[1] == "cc":
                 if b <= 5:
-                    return "ok" if o == "%02x" % b else "fail:completion-code-table"
+                    return "ok" if o == "%02x %s" % (b, CC_NAMES[b]) else "fail:completion-code-table"
                 return "na"    # C19 constrains code points 0-5 only; the panic above 5 is C10's finding D10
         if prop == "C18" and t[0] == "view":
             if t[1] == "get":
